@@ -257,8 +257,10 @@ func (db *DB) UpdateRetainedCheckpoints(ids []uint64) error {
 	return err
 }
 
+// NeedsTable reports whether a retained checkpoint or the current set of
+// sstables uses the table file.
 func (db *DB) NeedsTable(filePath string) bool {
-	return db.checkpoints.IncludesTable(filePath)
+	return db.checkpoints.IncludesTable(filePath) || db.currentSSTables().IncludesTable(filePath)
 }
 
 func (db *DB) Close() error {
